@@ -262,9 +262,87 @@ def builder_cases():
         yield c
 
 
+def reserved_name_cases(rng):
+  """SC18: records whose keys are PLAIN str spelled like the reserved keys ({'SELF': .., 'SKIP': .., 'c': {'SELF': ..,
+  'SKIP': [..]}}) and operators that read / write such names — bare, as Key path, nested, in tuples, as dict-form record
+  key — next to the reserved keys themselves; every operator kind; the builder's key-set rules with such names (assign to
+  a produced 'SKIP' / 'SELF' must be rejected, plain 'SELF' next to other keys is legal, batch after select('SKIP'))."""
+  f = lambda n, **kw: dict(f=n, **kw)
+  d = G.make_items(rng, 'rdict', 3)
+  ins1 = [{'one': N('SELF')}, {'one': N('SKIP')}, {'one': P('SELF')}, {'one': P('c', 'SELF')}, {'one': P('c', 'SKIP', 1)},
+          {'many': [N('SKIP')]}, {'kw': [['x', N('SELF')]]}, {'one': SELF}]
+  outs1 = [{'one': N('SELF')}, {'one': N('SKIP')}, {'one': P('SKIP')}, {'one': P('SELF', 'SKIP')}, {'many': [N('SELF')]},
+           {'one': P('c', 'SKIP')}, {'one': N('x')}, {'one': SELF}]
+  for i in ins1:
+    for o in outs1:
+      if 'self' not in i.get('one', {}):
+        yield mk_case([{'op': 'apply', 'fn': f('add1'), 'in': i, 'out': o}], d)
+        if o != {'one': SELF}:
+          yield mk_case([{'op': 'assign', 'fn': f('add1'), 'in': i, 'keys': o}], d)
+    yield mk_case([{'op': 'filter', 'fn': f('is_even') if 'self' not in i.get('one', {}) else f('const', c=1), 'in': i}], d)
+    yield mk_case([{'op': 'sink', 'fn': f('ident'), 'in': i, 'is_sink': True}], d)
+  two = [{'many': [N('SELF'), N('SKIP')]}, {'kw': [['x', N('SKIP')], ['y', P('c', 'SELF')]]}, {'many': [P('c', 'SELF'), N('SELF')]}]
+  outs2 = [{'many': [N('SELF'), N('SKIP')]}, {'many': [N('SKIP'), N('SELF')]}, {'many': [SKIP, N('SKIP')]}, {'many': [N('SKIP'), SKIP]},
+           {'many': [N('SELF'), N('y')]}, {'many': [N('y'), N('SELF')]}, {'one': N('SELF')}, {'one': SELF}, {'many': [N('SKIP'), N('SKIP')]},
+           {'many': [P('SELF', 'u'), P('SELF', 'v')]}, {'many': [SELF, N('SELF')]}]
+  for i in two:
+    for o in outs2:
+      yield mk_case([{'op': 'apply', 'fn': f('swap'), 'in': i, 'out': o}], d)
+      if o != {'one': SELF}:
+        yield mk_case([{'op': 'assign', 'fn': f('swap'), 'in': i, 'keys': o}], d)
+    yield mk_case([{'op': 'sink', 'fn': f('tup' if 'many' in i else 'sum2'), 'in': i, 'is_sink': True}], d)
+  for o in [{'one': DK(('SELF', N('u')), ('SKIP', P('v')))}, {'many': [DK(('SKIP', N('u')))]}, {'one': DK((P('c', 'SELF'), N('u')))},
+            {'one': N('SKIP')}, {'one': DK(('q', SELF))}, {'one': DK((SELF, N('u')))}]:
+    yield mk_case([{'op': 'apply', 'fn': f('mk_dict'), 'in': {'one': N('SELF')}, 'out': o}], d)
+    yield mk_case([{'op': 'assign', 'fn': f('mk_dict'), 'in': {'one': N('SKIP')}, 'keys': o}], d)
+  for i, o in [({'one': N('SELF')}, None), ({'one': N('SKIP')}, None), ({'many': [N('SELF'), N('SKIP')]}, None),
+               ({'many': [N('SKIP'), N('SELF')]}, None), ({'many': [N('SELF'), P('c', 'SKIP')]}, {'many': [N('SKIP'), N('q')]}),
+               ({'many': [N('SELF'), N('SKIP')]}, {'many': [N('SKIP'), N('SELF')]}), ({'one': N('SELF')}, {'one': N('SKIP')}),
+               ({'many': [N('SELF'), N('SKIP')]}, {'one': N('SELF')}), ({'many': [SELF, N('SELF')]}, {'many': [N('SKIP'), N('SELF')]}),
+               ({'one': SKIP}, None)]:
+    sp = {'op': 'select', 'in': i}
+    if o is not None:
+      sp['out'] = o
+    yield mk_case([sp], d)
+    for n in (0, 2):
+      yield mk_case([copy.deepcopy(sp), {'op': 'batch', 'n': n}], d)
+  # the builder's key-set rules
+  asg = lambda keys, fn='add1', src='SELF': {'op': 'assign', 'fn': f(fn), 'in': {'one': N(src)}, 'keys': keys}
+  for first in [asg({'one': N('z')}), asg({'one': N('SKIP')}), asg({'one': N('SELF')}), asg({'many': [N('SKIP'), SKIP]}, 'pair'),
+                asg({'many': [SKIP, N('z')]}, 'pair'), {'op': 'select', 'in': {'many': [N('SELF'), N('SKIP')]}},
+                {'op': 'apply', 'fn': f('pair'), 'in': {'one': N('SELF')}, 'out': {'many': [N('SKIP'), N('SELF')]}},
+                {'op': 'apply', 'fn': f('pair'), 'in': {'one': N('SELF')}, 'out': {'many': [SKIP, N('SELF')]}}]:
+    for mid in [[], [{'op': 'filter', 'fn': f('const', c=1), 'in': {'one': SELF}}]]:
+      for second in [asg({'one': N('SKIP')}), asg({'one': N('SELF')}), asg({'one': P('SKIP')}), asg({'many': [N('q'), N('SELF')]}, 'pair'),
+                     asg({'many': [SKIP, N('SKIP')]}, 'pair'), asg({'one': SELF}), asg({'one': DK(('SKIP', N('u')))}, 'mk_dict'),
+                     asg({'one': N('q')})]:
+        yield mk_case([copy.deepcopy(first)] + copy.deepcopy(mid) + [copy.deepcopy(second)], d, tag='reserved-names:builder')
+
+
+def _spelled(k):
+  """'SELF' / 'SKIP' if the key (wire form) is or contains a PLAIN name spelled like a reserved key"""
+  out = []
+  if 'n' in k and k['n'] in G.RESERVED_NAMES:
+    out.append(k['n'])
+  if 'p' in k:
+    out += [s for s in k['p'] if s in G.RESERVED_NAMES]
+  if 'dk' in k:
+    for n, src in k['dk']:
+      out += _spelled(L.rk_json(n)) + _spelled(src)
+  return out
+
+
 def arms_of(case):
   """the promised arms a case exercises (computed from the case, so random cases count too)"""
   arms = []
+  for sp in case['specs']:
+    for part, what in (('in', 'input'), ('out', 'output'), ('keys', 'output')):
+      if sp.get(part) is not None:
+        spec = sp[part]
+        keys = [spec['one']] if 'one' in spec else spec.get('many', [k for _, k in spec.get('kw', [])])
+        for k in keys:
+          for s in _spelled(k):
+            arms.append(f"{sp['op']}: {what} key with the plain name {s!r}")
   specs = case['specs']
   items = case['src']['items']
   first = items[0].get('d') if items and isinstance(items[0], dict) and 'd' in items[0] else None
@@ -366,13 +444,49 @@ def gen_cases(ctx):
                       kind=rng.choice(['list', 'seq']))
   yield from counted(threaded(60 if quick else 1500), 'threads')
 
+  # SC18 (last, so that the stages above draw what they drew before): names spelled like the reserved keys
+  yield from counted(reserved_name_cases(rng), 'reserved-names')
+
+  def rand_r(n):
+    for _ in range(n):
+      specs = G.gen_chain(rng, 'rdict', 5)
+      if specs:
+        yield mk_case(specs, G.make_items(rng, 'rdict', rng.choice([1, 2, 3, 4])), ignore=rng.random() < 0.25)
+  yield from counted(rand_r(400 if quick else 8000), 'reserved-names')
+
+  def self_mixed_select(specs):
+    """Key.SELF among SEVERAL output keys of a select (explicit, or the input keys by default) or an apply.  Not this
+    arm's class (nothing is spelled like a reserved key) and a separate observation reported by SC18: the builder checks
+    'SELF mixed with other keys' for assign only; when SELF comes first `_normalize_outputs` wraps the outputs
+    (ValueError from zip() for every record; the reference interpreter gives SELF the first output), and a following
+    batch() takes `tuple(self.output_keys)` in SET order, so whether SELF comes first depends on the process's str
+    hashing.  The plain wild arm draws this class with the probability it always had."""
+    for sp in specs:
+      if sp['op'] in ('select', 'apply'):
+        spec = sp.get('out') or (sp['in'] if sp['op'] == 'select' else {})
+        ks = spec.get('many') or [k for _, k in spec.get('kw', [])]
+        if len(ks) > 1 and any('self' in k for k in ks):
+          return True
+    return False
+
+  def wild_r(n):
+    for _ in range(n):
+      specs = G.gen_wild(rng, 3, reserved_names=True)
+      items = G.make_items(rng, 'rdict', rng.randrange(0, 4))
+      ignore = rng.random() < 0.2
+      if not self_mixed_select(specs):
+        yield mk_case(specs, items, ignore=ignore)
+  yield from counted(wild_r(150 if quick else 3000), 'reserved-names')
+
 
 REQUIRED = {
     'operator': ['select', 'apply', 'assign', 'filter', 'batch', 'sink', 'aggregate', 'apply+batch', 'select+batch', 'assign+batch'],
     'key_shape': ['single', 'kwargs', 'tuple0', 'tuple1', 'tuple2', 'tuple3', 'bare-name', 'index', 'path-1', 'path-nested',
                   'path-with-index', 'dict-output-key', 'SELF', 'SKIP', 'LIT'],
-    'class': ['systematic', 'typed', 'wild', 'threads', 'nested-assign', 'builder'],
-    'arm': ['assign: several keys, one a nested path into an existing container',
+    'class': ['systematic', 'typed', 'wild', 'threads', 'nested-assign', 'builder', 'reserved-names'],
+    'arm': [f'{op}: {what} key with the plain name {s!r}' for s in ('SELF', 'SKIP')
+            for op, what in (('select', 'input'), ('select', 'output'), ('apply', 'input'), ('apply', 'output'),
+                             ('assign', 'input'), ('assign', 'output'), ('filter', 'input'), ('sink', 'input'))] + ['assign: several keys, one a nested path into an existing container',
             'assign: dict-form key whose record key is a nested path into an existing container',
             'assign (several keys, nested) directly behind a sink',
             'assign (several keys, nested) over record objects that occur twice',
